@@ -56,7 +56,7 @@ def mapper_spaces(prog):
         t = call(ev, f, [A('network')])
         ty = Typer(prog, 'mapper:' + nm, f.site)
         r = ty.ty(tkey(t))
-        out[nm] = r[1] if r[0] == 'map' else U('mapper:' + nm)
+        out[nm] = (('KO', r[1], r[2]) if len(r) > 2 else r[1]) if r[0] == 'map' else U('mapper:' + nm)
     prog.__dict__['_mapper_spaces_t'] = out
     return out
 
